@@ -268,7 +268,47 @@ def corrupt_token(src: str, rng: random.Random) -> str | None:
     return _replace_tok(src, t, rng.choice(_TOKEN_POOL))
 
 
+_JUMPS = ["break", "continue", "return", "return 1", "yield", "yield 1", "await x", "raise", "raise E from None", "pass", "global g",
+          "nonlocal n", "del x", "import m", "from m import *", "assert False", "x = yield", "return (yield)", "async def q(): pass", "match x:\n{i}    case _: break"]
+
+
+def insert_jump(src: str, rng: random.Random) -> str | None:
+    """Insert a control-flow / scope statement at an arbitrary statement position, whether or not it is legal there
+    (break in an else clause, return at module level, yield in a class body, nonlocal at top level...)."""
+    tree = _parse(src)
+    if tree is None:
+        return None
+    st = _stmts(tree)
+    if not st:
+        return None
+    s, _ = rng.choice(st)
+    lines = src.split("\n")
+    a, b = _span(s)
+    ind = _indent(lines[a])
+    stmt = rng.choice(_JUMPS).replace("{i}", ind)
+    pos = a if rng.random() < 0.5 else b
+    return "\n".join(lines[:pos] + [ind + stmt] + lines[pos:])
+
+
+def line_endings(src: str, rng: random.Random) -> str | None:
+    """Re-encode the line terminators: CR only, CRLF, mixed, form feeds / vertical tabs inside lines."""
+    kind = rng.choice(["cr", "crlf", "mixed", "formfeed", "vtab", "nel"])
+    if kind == "cr":
+        return src.replace("\n", "\r")
+    if kind == "crlf":
+        return src.replace("\n", "\r\n")
+    if kind == "mixed":
+        return "".join(ch if ch != "\n" else rng.choice(["\n", "\r", "\r\n"]) for ch in src)
+    if kind == "formfeed":
+        return src.replace("\n", "\n\x0c", 2)
+    if kind == "vtab":
+        return src.replace(" = ", " =\x0b ", 1)
+    return src.replace("\n", "\n# \x85 \u2028 comment\n", 1)
+
+
 STRUCTURAL: dict[str, Callable[[str, random.Random], str | None]] = {
+    "insert_jump": insert_jump,
+    "line_endings": line_endings,
     "delete_stmt": delete_stmt,
     "dup_stmt": dup_stmt,
     "swap_stmts": swap_stmts,
